@@ -80,7 +80,7 @@ func HarnessCloseWS() {
 	withStream := verif.Bool("with_stream")
 	subResult := 0
 	if withStream {
-		subResult = verif.Choice("sub_result", len(subResults))
+		subResult = verif.Choice("sub_result", verif.Bound("subresults", len(subResults)))
 	}
 	l := verif.ListenWS()
 	go peerSub(l, mute, fault, subResult)
@@ -99,7 +99,7 @@ func HarnessCloseWS() {
 		callVal, callErr = c.Echo(context.Background(), tok)
 		callRet++
 	}()
-	lags := withStream && verif.Bool("consumer_lags")
+	lags := withStream && subResult == 0 && verif.Bool("consumer_lags")
 	drain := make(chan struct{})
 	if withStream {
 		go func() {
